@@ -499,3 +499,7 @@ fn parse_socket_addr<T: FromStr>(s: &str) -> Option<(T, u16)> {
 
     Some((scion_addr, port))
 }
+
+#[cfg(kani)]
+#[path = "/verif/kani/sciparse/text.rs"]
+mod verif_text;
